@@ -107,7 +107,7 @@ def h_default_alignment(num_pos_args: int, n_defaults: int, index: int) -> bool:
 MAXP = tier(2, 3)          # max positional-only, positional
 MAXK = 2                   # max keyword-only
 FULL = tier(False, True)
-ANN = ["", ": int", ": 'List[int]'", ": \"Foo\"", ": None", ": 'None'", ": List[None]", ": List['Foo']", ": Annotated['Foo', 'meta']", ": Literal['Foo']"]
+ANN = ["", ": int", ": 'List[int]'", ": \"Foo\"", ": None", ": 'None'", ": List[None]", ": List['Foo']", ": Annotated['Foo', 'meta']", ": Literal['Foo']", ": ('Foo | int') * 2"]
 NANN = len(ANN) - 1
 DEFAULTS = ["100", "True", "1.0", "None", "'s'", "0.0", "False", "-1", "1", "0", "b'1'", "''", "2*(7//2)", "1+(8-3)", "(1, 2)", "[1, {'a': ()}]", "x.y[0](z)", "10-(4-3)"]
 RET = ["", " -> None", " -> int", " -> 'Foo'", " -> \"None\""]
@@ -158,24 +158,27 @@ def layout(a):
             [None if d is None else ast.dump(d) for d in a.kw_defaults], a.kwarg and one(a.kwarg), [ast.dump(d) for d in a.defaults])
 
 
-def _unstring(node):
+class _Unstring(ast.NodeTransformer):
     """forward references written as strings are shown unquoted, at any depth - except the arguments of Literal[...] (values,
     not types) and the metadata of Annotated[...] (only its first argument is a type)"""
-    if isinstance(node, ast.Constant) and isinstance(node.value, str):
-        return _unstring(ast.parse(node.value, mode="eval").body)
-    if isinstance(node, ast.Subscript):
+
+    def visit_Constant(self, node):
+        if isinstance(node.value, str):
+            return self.visit(ast.parse(node.value, mode="eval").body)
+        return node
+
+    def visit_Subscript(self, node):
         head = node.value.id if isinstance(node.value, ast.Name) else getattr(node.value, "attr", None)
         if head == "Literal":
             return node
         if head == "Annotated" and isinstance(node.slice, ast.Tuple) and node.slice.elts:
-            node.slice.elts[0] = _unstring(node.slice.elts[0])
+            node.slice.elts[0] = self.visit(node.slice.elts[0])
             return node
-        node.slice = _unstring(node.slice)
-        return node
-    if isinstance(node, ast.Tuple):
-        node.elts = [_unstring(e) for e in node.elts]
-        return node
-    return node
+        return self.generic_visit(node)
+
+
+def _unstring(node):
+    return _Unstring().visit(node)
 
 
 def unquote_annotations(fdef):
@@ -250,7 +253,7 @@ def _parts_sig():
     parts=_parts_sig, timeout=(240, 2400), cls="E", tracing="concrete-after-choice", twin="first",
     code=["pydoctor.astbuilder.ModuleVistor._handleFunctionDef", "._annotations_from_function", "pydoctor.astutils.unstring_annotation",
           "pydoctor.astbuilder._ValueFormatter/_AnnotationValueFormatter", "pydoctor.templatewriter.pages.format_signature", "inspect.Signature.__str__"],
-    bounds={"quick": "<=2 positional-only, <=2 positional, every count of defaults, *args or not, <=2 keyword-only with every default mask, **kwargs or not, 3 annotation placements (none / all / alternate; forms: name, quoted subscript, double-quoted name, None, quoted None, subscript with None, quoted name inside a subscript, Annotated with a quoted type and string metadata, Literal with a string), 5 return forms, name or constant defaults (chosen by the layout), plain function, and overload set with all parameters annotated",
+    bounds={"quick": "<=2 positional-only, <=2 positional, every count of defaults, *args or not, <=2 keyword-only with every default mask, **kwargs or not, 3 annotation placements (none / all / alternate; forms: name, quoted subscript, double-quoted name, None, quoted None, subscript with None, quoted name inside a subscript, Annotated with a quoted type and string metadata, Literal with a string, a quoted union as operand of a tighter-binding operator), 5 return forms, name or constant defaults (chosen by the layout), plain function, and overload set with all parameters annotated",
             "thorough": "<=3 positional-only and <=3 positional, full product incl. name/constant defaults and overload sets for every annotation placement"},
     outside="default/annotation expressions beyond constants, names and one subscript (C15); signatures from introspection of C modules",
 )
